@@ -177,7 +177,12 @@ func (w *World) sortedFuncNames() []string {
 // ---------------------------------------------------------------------------------------------
 // heap keys
 
-func under(t types.Type) types.Type { return t.Underlying() }
+func under(t types.Type) types.Type {
+	if t == nil {
+		return types.Typ[types.Invalid] // an expression that could not be typed (reported as unsupported where it arose)
+	}
+	return t.Underlying()
+}
 
 func structOf(t types.Type) (*types.Struct, string) {
 	if p, ok := under(t).(*types.Pointer); ok {
@@ -1078,8 +1083,17 @@ func (w *World) ifaceRefinements(cs *Contracts) map[*ssa.Function][]implRef {
 			for i := 0; i < it.NumMethods(); i++ {
 				key := qualName(tn.Type()) + "." + it.Method(i).Name()
 				ct := cs.IfaceFor(key)
-				if ct == nil || len(ct.Ensures) == 0 {
+				if ct == nil {
 					continue
+				}
+				real := 0
+				for _, en := range ct.Ensures {
+					if !en.Define {
+						real++
+					}
+				}
+				if real == 0 {
+					continue // only assumed definition clauses: nothing for implementations to prove
 				}
 				ms := it.Method(i).Type().(*types.Signature)
 				var params []string
